@@ -334,6 +334,31 @@ def _moore(spec, ctx, R):
         if n >= 2:
             e[0] = -e[0]
     A, _ = refq.hermitian_with_eigs(rng, e)
+    tagk = ["definite", "indefinite", "singular", "repeated"][k]
+    struct = ["dense", "dense", "zero_subdiagonal_entry", "arrow", "sparse", "block_diagonal", "tridiagonal", "real_symmetric"][(spec["idx"] // 4) % 8]
+    if struct != "dense" and n >= 3:
+        # structured Hermitian inputs (exact zeros at particular positions): the reduction takes other branches there
+        c = refq.fa(A).copy()
+        if struct == "zero_subdiagonal_entry":
+            j = int(rng.integers(0, n - 2))
+            c[j + 1, j] = 0.0; c[j, j + 1] = 0.0
+        elif struct == "arrow":
+            keep = np.eye(n, dtype=bool); keep[0, :] = True; keep[:, 0] = True
+            c[~keep] = 0.0
+            c[1, 0] = 0.0; c[0, 1] = 0.0                    # the hub is not linked to node 1
+        elif struct == "sparse":
+            msk = np.triu(rng.random((n, n)) < 0.35, 1); msk = msk | msk.T | np.eye(n, dtype=bool)
+            c[~msk] = 0.0
+        elif struct == "block_diagonal":
+            h = n // 2
+            c[:h, h:] = 0.0; c[h:, :h] = 0.0
+        elif struct == "tridiagonal":
+            c[np.abs(np.subtract.outer(np.arange(n), np.arange(n))) > 1] = 0.0
+        elif struct == "real_symmetric":
+            c[..., 1:] = 0.0
+        A = refq.qa(c)
+        tagk = "structured:" + struct
+        ctx.hit("moore:structured_hermitian")
     ctx.distinct(A, nontrivial=n >= 2)
     lam = embed.eigvalsh(A)
     ref = float(np.prod(lam))
@@ -346,5 +371,5 @@ def _moore(spec, ctx, R):
         return
     d = complex(d)
     bound = C * n * n * EPS * amax ** n + 1e-300 if amin <= 1e-9 * amax else C * n * n * EPS * (amax / amin) * abs(ref) + 1e-300
-    ctx.check("det:moore_value", abs(d - ref), bound, site="det:Moore", tags=[["definite", "indefinite", "singular", "repeated"][k]],
+    ctx.check("det:moore_value", abs(d - ref), bound, site="det:Moore", tags=[tagk],
               detail={"det": [d.real, d.imag], "oracle": ref, "eigs": lam})
